@@ -173,7 +173,7 @@ def parse_spec(path):
                 cur_fn.r6_optional.add(n)
             section = sec
         elif s.startswith("%proof") and cur_fn is not None:
-            m = re.match(r'%proof\s+(before|afterblock|after|start|inloop|endloop|end)(?:\s+"(.*)")?(?:\s+#(\d+))?\s*$', s)
+            m = re.match(r'%proof\s+(before|afterblock|afterstmt|after|start|inloop|endloop|end)(?:\s+"(.*)")?(?:\s+#(\d+))?\s*$', s)
             if not m:
                 raise Undecided("bad %%proof at %s:%d" % (path, lineno))
             sec = []
@@ -187,7 +187,7 @@ def parse_spec(path):
             cur_fn.proofs.append((m.group(1), m.group(2), int(m.group(3) or 0), sec, None))
             section = sec
         elif s.startswith("%ghost") and cur_fn is not None:
-            m = re.match(r'%ghost\s+(before|afterblock|after|start|inloop|endloop|end)(?:\s+"(.*)")?(?:\s+#(\d+))?\s*$', s)
+            m = re.match(r'%ghost\s+(before|afterblock|afterstmt|after|start|inloop|endloop|end)(?:\s+"(.*)")?(?:\s+#(\d+))?\s*$', s)
             if not m:
                 raise Undecided("bad %%ghost at %s:%d" % (path, lineno))
             sec = []
@@ -714,6 +714,29 @@ def fn_inserts(u, m, d, it, info, used_fns, probe_fn):
                 if depth != 0:
                     raise Undecided("anchor lost (unbalanced block after anchor in %s)" % full)
                 z = k
+            elif where == "afterstmt":
+                # the anchor is the beginning of a statement: go to just after the `;` that ends it (nesting depth 0)
+                depth, k = 0, z
+                while k < len(body):
+                    ch = body[k]
+                    if ch == '"':
+                        k += 1
+                        while k < len(body) and body[k] != '"':
+                            k += 2 if body[k] == "\\" else 1
+                    elif ch in "([{":
+                        depth += 1
+                    elif ch in ")]":
+                        depth -= 1      # may go negative: the anchor usually ends inside the call's parentheses
+                    elif ch == "}":
+                        if depth <= 0:
+                            raise Undecided("anchor lost (afterstmt: no statement end in %s)" % full)
+                        depth -= 1
+                    elif ch == ";" and depth <= 0:
+                        break
+                    k += 1
+                if k >= len(body):
+                    raise Undecided("anchor lost (afterstmt: no statement end in %s)" % full)
+                z = k + 1
             pos = it["body_start"] + (a if where == "before" else z)
         ins.append((pos, -1 if where == "before" else 0, ptxt, ("spec", fs.specfile, first - 2, full, fs.props)))
         for lineno, t in sec:
